@@ -14,6 +14,10 @@ CHECKS = {
                 text="All event histories up to the stated depth (full alphabet depth 2 / core alphabet depth 4 quick; deeper thorough) from 5 start states x 2 configurations are executed on the real Server; after every event the table snapshot must be a well-formed Kademlia table and agree with NumNodes/Stats/Nodes/WriteStatus. Bounded exhaustive, not a proof.",
                 note="go1.26.8 synctest runtime; VerifTable hook snapshot is trusted to copy the table faithfully; eviction victim among equally eligible entries is chosen by Go map order and not enumerated",
                 ref="DESIGN.md 5/C05"),
+    "C06": dict(level="model_checking", technique=E1,
+                text="Same explorer as C05 with 4 configurations (security on/off x blocklist); every transition (snapshot before, event, snapshot after) is checked against a reference admission/eviction policy written from the property text: only the direct sender of a query / matched response / AddNode may appear, never hearsay, unsolicited, mismatched, read-only, blocked or BEP42-invalid senders; at most one eviction, only of a bad or never-responded (when the newcomer just answered) entry in a full bucket; no good entry ever disappears; eligible senders are admitted when the bucket has room.",
+                note="reference goodness/BEP42 rules are independent re-implementations; eviction victim choice (Go map order) is not enumerated, any victim that occurs is checked; AddNode of a blocklisted address is outside the property (the blocklist concerns datagrams)",
+                ref="DESIGN.md 5/C06"),
 }
 
 NOT_YET = {}
